@@ -708,6 +708,11 @@ func (env *Env) call(e *ast.CallExpr) TV {
 				return env.fail("canon(s)")
 			}
 			return TV{VTerm{x.canon(k)}, types.Typ[types.String]}
+		case "hdrCount":
+			// hdrCount(h, "K"): len(h.Values("K"))
+			h, _ := tvTerm(env.expr(args[0]))
+			k, _ := tvTerm(env.expr(args[1]))
+			return intTV(x.hdrCount(env.state(), h, k))
 		case "hdrHas":
 			h, _ := tvTerm(env.expr(args[0]))
 			k, _ := tvTerm(env.expr(args[1]))
